@@ -144,8 +144,14 @@ def _run(sim):
     start = sim.draw_int(0, 5000, "t0")
     realm = b"test realm"
     sim.config = {"algorithm": algo.decode(), "via_web": via_web, "factories": nfac, "steps": nsteps, "avoid_known": avoid, "t0": start}
+    # Clocks have sub-second resolution (time.time() does).  The implementation keeps challenge times in whole seconds, so its
+    # notion of age can differ from the true age by less than one second: a response whose true age lies strictly between the
+    # lifetime and the lifetime + 1 s gets no verdict (the scenario lets one more second pass first); everything else is decided
+    # by the true age: <= lifetime must be accepted, >= lifetime + 1 must be refused.  All times are multiples of 1/8 s (exact floats).
+    fractional = sim.draw_bool(0.4, "fractional_clock")
+    sim.config["fractional_clock"] = fractional
     clock = sim.clock
-    clock.advance(start)
+    clock.advance(start + (sim.draw_int(0, 7, "t0_eighths") / 8.0 if fractional else 0))
     addrs = [a for a in ADDRS if a is not None] if via_web else ADDRS
 
     facs = []
@@ -187,7 +193,7 @@ def _run(sim):
         """Is (nonce, opaque) an unaltered challenge issued by factory fidx to addr, still within its lifetime?"""
         for c in issued:
             if c.fidx == fidx and c.nonce == nonce and c.opaque == opaque and (c.addr or None) == (addr or None) \
-                    and now_int() - c.when <= LIFETIME:
+                    and clock.seconds() - c.when <= LIFETIME:
                 return True
         return False
 
@@ -199,7 +205,7 @@ def _run(sim):
         key = lenient_b64(parts[1])
         for c in issued:
             cp = c.opaque.split(b"-")
-            if c.fidx == fidx and c.nonce == nonce and (c.addr or None) == (addr or None) and now_int() - c.when <= LIFETIME \
+            if c.fidx == fidx and c.nonce == nonce and (c.addr or None) == (addr or None) and clock.seconds() - c.when <= LIFETIME \
                     and cp[0] == parts[0] and key is not None and key == base64.b64decode(cp[1]):
                 return True
         return False
@@ -282,6 +288,11 @@ def _run(sim):
 
     def respond():
         c = sim.draw_choice(issued, "challenge")
+        if LIFETIME < clock.seconds() - c.when < LIFETIME + 1:
+            # the implementation's whole-second bookkeeping may or may not regard this challenge as expired: no verdict; let the doubt pass
+            sim.probe("age_within_truncation_window_no_verdict")
+            clock.advance(1)
+            sim.sim_time += 1
         user, right_pw = sim.draw_choice(USERS, "user")
         method = sim.draw_choice([b"GET", b"POST"], "method")
         uri = sim.draw_choice([b"/", b"/a/b?c=d", b"/write/"], "uri")
@@ -307,12 +318,12 @@ def _run(sim):
             return f
 
         fidx, addr, used_pw = c.fidx, c.addr, right_pw
-        fresh = now_int() - c.when <= LIFETIME
+        fresh = clock.seconds() - c.when <= LIFETIME
         fields = build(right_pw, c.nonce, c.opaque)
         expect = "valid" if fresh else "invalid"
         if not fresh:
             sim.probe("expired_response")
-        age = now_int() - c.when
+        age = clock.seconds() - c.when
         if age in (LIFETIME - 1, LIFETIME, LIFETIME + 1):
             sim.probe("age_at_boundary_%+d" % (age - LIFETIME))
         header = None
@@ -433,10 +444,13 @@ def _run(sim):
             ch = get_challenge(fidx, addr)
             sim.check("challenge-shape", isinstance(ch.get("nonce"), bytes) and isinstance(ch.get("opaque"), bytes) and ch.get("opaque").count(b"-") == 1,
                       "fields", "challenge %r" % (ch,))
-            issued.append(Issued(fidx, addr, ch["nonce"], ch["opaque"], now_int()))
+            issued.append(Issued(fidx, addr, ch["nonce"], ch["opaque"], clock.seconds()))
             sim.event("challenge", fidx, addr or "-", now_int(), ch["nonce"], ch["opaque"])
         elif op == "advance":
             dt = sim.draw_choice([1, 10, 60, 450, 2, 899, 300, 900, 30, 901, 1800], "dt")
+            if fractional:
+                dt += sim.draw_int(0, 7, "dt_eighths") / 8.0
+                sim.probe("fractional_time")
             sim.event("advance", dt)
             if sim.draw_bool(0.5, "jump"):
                 clock.jump(dt)
@@ -446,7 +460,7 @@ def _run(sim):
         elif op == "to-boundary":
             c = sim.draw_choice(issued, "challenge")
             target = LIFETIME + sim.draw_choice([0, -1, 1], "edge")
-            age = now_int() - c.when
+            age = clock.seconds() - c.when
             if age < target:
                 sim.event("advance-to-age", target)
                 clock.advance(target - age)
